@@ -157,6 +157,9 @@ pub fn crash_site(msg: &str, loc: &str) -> String {
 }
 
 
+/// payload of the unwinding that ends a discarded enumerator run (see `Ctx::pick`)
+pub struct DiscardedRun;
+
 pub struct Failure {
     pub clause: String,
     pub case: Vec<usize>,
@@ -231,9 +234,11 @@ impl Ctx {
             0
         };
         if c >= n {
-            // replayed digit out of range (code changed shape) or worker without work: discard this run
+            // replayed digit out of range (code changed shape) or worker without work: discard this run - and leave the
+            // obligation's closure at once (unwinding to `drive`), so that a discarded run has no side effects such as
+            // scratch files shared with the worker that really owns the clamped case
             self.abort = true;
-            c = n - 1;
+            std::panic::panic_any(DiscardedRun);
         }
         if self.pos < self.digits.len() {
             self.digits[self.pos] = (c, n);
